@@ -66,14 +66,44 @@ impl Family for TypePos {
         &["C02", "C03", "C19", "C04"]
     }
     fn rule(&self) -> &'static str {
-        "types = {int32,bool,string,unit,S,E2} closed under {tuple, array, Vec, Ref, Opt[.], Bx[.] (generic struct), nullary / unary / binary function types} to depth 1, and to depth 2 through one representative per constructor (quick) / through every depth-1 type (thorough); each type T written in 9 positions (let annotation, parameter, result, struct field, under Ref, as the argument of a generic enum, closure parameter, through a generic function, inside a tuple) in a program that never constructs a value of T (vec_new / Opt::Non only); oracle: accepted, IR consistent, Go valid, prints 0. non-trivial = composite T; distinct = distinct source text"
+        "types = {int32,bool,string,unit,S,E2} closed under {tuple, array, Vec, Ref, Opt[.], Bx[.] (generic struct), nullary / unary / binary function types} to depth 1, and to depth 2 through one representative per constructor (quick) / through every depth-1 type (thorough); each type T written in 9 positions (let annotation, parameter, result, struct field, under Ref, as the argument of a generic enum, closure parameter, through a generic function, inside a tuple) in a program that never constructs a value of T (vec_new / Opt::Non only); oracle: accepted, IR consistent, Go valid, prints 0; plus 5 programs that use function types whose result is a function type written without parentheses (two / three arrows; let, parameter, struct field, Vec element), applying the value one argument at a time. non-trivial = composite T; distinct = distinct source text"
     }
     fn cases(&self, tier: Tier) -> Box<dyn Iterator<Item = Value> + '_> {
         let n = types(tier).len();
-        Box::new((0..n).map(|i| json!({"type": i})))
+        let curried: Vec<Value> = (0..curried_programs().len()).map(|i| json!({"curried": i})).collect();
+        Box::new((0..n).map(|i| json!({"type": i})).chain(curried.into_iter()))
     }
     fn run(&self, case: &Value, ctx: &mut Ctx) -> Report {
         let mut rep = Report::default();
+        if let Some(ci) = case["curried"].as_u64() {
+            let (name, text, want) = curried_programs()[ci as usize].clone();
+            let site = format!("curried={}", name);
+            let replay = json!({"kind": "differential", "family": "typepos", "case": case, "source": text});
+            rep.more_keys.push(fnv(&text));
+            rep.sample = Some(json!({"source": text, "expected": want}));
+            let path = ctx.scratch.single_path();
+            match compile_at(&path, &text) {
+                CompileOutcome::Ok(c) => {
+                    let go = go_text(&c).unwrap_or_default();
+                    drop(c);
+                    match crate::projects::run_go(&go, FUEL) {
+                        Ok(o) if lossy(&o.stdout) == want && o.end == NEnd::Ok => rep.tag("ok"),
+                        Ok(o) => rep.findings.push(Finding { property: "C02", class: "typepos.output".into(), site, detail: format!("expected {:?} got {:?}/{}", want, lossy(&o.stdout), end_tag(&o.end)), replay }),
+                        Err(m) if m.starts_with("machinery") => rep.tag("machinery:go-unsupported"),
+                        Err(m) => rep.findings.push(Finding { property: "C02", class: m.split(':').next().unwrap_or("go").to_string(), site: format!("{};goerr={}", site, normalise_msg(&m)), detail: m, replay }),
+                    }
+                }
+                CompileOutcome::Err(e) => {
+                    // a function type whose result is a function type, written without parentheses, is well-formed:
+                    // a rejection means the arrows were grouped to the left
+                    let (stage, msg) = describe_err(&e);
+                    rep.findings.push(Finding { property: "C02", class: format!("typepos.rejected.{}", stage), site: format!("{};msg={}", site, normalise_msg(&msg)), detail: msg, replay });
+                }
+                CompileOutcome::Panic(m) => rep.findings.push(Finding { property: "C04", class: "compile.panic".into(), site: format!("{};msg={}", site, normalise_msg(&m)), detail: m, replay }),
+            }
+            rep.outcome = Some(name);
+            return rep;
+        }
         let t = types(ctx.tier)[case["type"].as_u64().unwrap() as usize].clone();
         let mut n = 0u64;
         for pos in POSITIONS {
@@ -153,4 +183,33 @@ fn fnv(s: &str) -> u64 {
         h = h.wrapping_mul(0x100000001b3);
     }
     h
+}
+
+/// function types whose result is a function type, written without parentheses (`->` groups to the
+/// right), used: the value is applied one argument at a time
+fn curried_programs() -> Vec<(String, String, String)> {
+    let mut v = Vec::new();
+    let base = "fn k3(c: bool) -> int32 { if c { 7 } else { 8 } }\nfn k2(b: int32) -> (bool) -> int32 { k3 }\nfn k1(a: string) -> (int32) -> (bool) -> int32 { k2 }\n";
+    for (name, ty, init, call) in [
+        ("two-arrows-let", "(int32) -> (bool) -> int32", "k2", "f(1)(true)"),
+        ("three-arrows-let", "(string) -> (int32) -> (bool) -> int32", "k1", "f(\"s\")(1)(false) - 1"),
+    ] {
+        v.push((name.to_string(), format!("{}fn main() {{\n    let f: {} = {};\n    let g = {};\n    string_println(int32_to_string(g))\n}}\n", base, ty, init, call), "7\n".to_string()));
+    }
+    v.push((
+        "two-arrows-param".into(),
+        format!("{}fn use_it(f: (int32) -> (bool) -> int32) -> int32 {{ let g = f(1); g(true) }}\nfn main() {{\n    string_println(int32_to_string(use_it(k2)))\n}}\n", base),
+        "7\n".into(),
+    ));
+    v.push((
+        "two-arrows-field".into(),
+        format!("{}struct H {{ f: (int32) -> (bool) -> int32 }}\nfn main() {{\n    let h = H {{ f: k2 }};\n    let ff = h.f;\n    let g = ff(1);\n    string_println(int32_to_string(g(true)))\n}}\n", base),
+        "7\n".into(),
+    ));
+    v.push((
+        "arrow-in-vec-elem".into(),
+        format!("{}fn main() {{\n    let w: Vec[(int32) -> (bool) -> int32] = vec_push(vec_new(), k2);\n    let f = vec_get(w, 0);\n    let g = f(1);\n    string_println(int32_to_string(g(true)))\n}}\n", base),
+        "7\n".into(),
+    ));
+    v
 }
